@@ -363,3 +363,46 @@ package table
 //@   no-alias-writes
 //@   assume-callee-frames
 //@   modifies path.pathAttrs, path.dels, path.attrsHash, path.pathAttrs[:cap], path.dels[:cap]
+
+// ---- evaluation order of the documented policy model ---------------------------------------------
+//@ func (*Path).Clone
+//@   requires path != nil
+//@   modifies nothing
+//@   ensures result != nil && fresh(result) && result.parent == path && result.IsWithdraw == isWithdraw
+//@ func (*Statement).Evaluate
+//@   pure
+//@   spec-only
+
+// a modification action returns the route it was given (modified in place) or a new route
+// (RoutingAction, which returns nil for reject, is the route action of a statement and never a modification action;
+//  OriginAction returns nil together with an error for an origin value that its constructor rejects)
+//@ interface Action.Apply
+//@   requires arg0 != nil
+//@   ensures result0 == arg0 || (result0 != nil && fresh(result0))
+//@   unverified RoutingAction AsPathPrependAction OriginAction
+
+// from C10: "a statement applies when all its conditions hold ... modifications accumulate" and "never mutates
+// shared routes": a statement that does not apply leaves the route alone; modifications go to a fresh clone
+//@ func (*Statement).Apply
+//@   requires s != nil && path != nil
+//@   claims at-call at-return inv-init inv-keep
+//@   loop 0 invariant fresh(path)
+//@   at-call action.Apply( requires fresh(path)
+//@   at-return requires !result ==> ret0 == ROUTE_TYPE_NONE && ret1 == path0
+//@   at-return requires ret0 == ROUTE_TYPE_NONE || ret0 == ROUTE_TYPE_ACCEPT || ret0 == ROUTE_TYPE_REJECT
+
+// from C10: "policies and statements in order; ... the first accept/reject decides"
+//@ func (*Policy).Apply
+//@   requires p != nil
+//@   claims step at-return
+//@   loop 0 step result == ROUTE_TYPE_NONE
+//@   at-return requires ret0 != ROUTE_TYPE_NONE ==> ret0 == result
+
+// from C10: "otherwise the assignment's default applies"; reject yields no route
+//@ func (*RoutingPolicy).ApplyPolicy
+//@   requires r != nil
+//@   claims at-call at-return step
+//@   loop 0 step result == ROUTE_TYPE_NONE
+//@   at-call r.getDefaultPolicy( requires result == ROUTE_TYPE_NONE
+//@   at-return requires before == nil ==> ret0 == nil
+//@   at-return requires before != nil && !old(before.IsWithdraw) ==> (result == ROUTE_TYPE_ACCEPT ==> ret0 == after) && (result != ROUTE_TYPE_ACCEPT ==> ret0 == nil)
